@@ -208,6 +208,7 @@ func ruleC07(c *Ctx, r *Report) {
 		fns = append(fns, f)
 	}
 	sort.Slice(fns, func(i, j int) bool { return fns[i].Name() < fns[j].Name() })
+	resultAfterErrorCheckRule(c, r, fns, "C07-R1")
 	var names []string
 	for _, f := range fns {
 		names = append(names, f.Name())
